@@ -130,6 +130,38 @@ def run(f, fixture, rep, cfg, tier):
         rep.check(bool(guards), "R3", "follow|%s|#%d" % (c.decl, ordinal), "%s on the final path is preceded by removal of a symbolic link there" % c.decl,
                   "%s follows a symbolic link an earlier entry may have planted at %s: no dominating symlink removal" % (c.decl, t[:120]), c.loc())
 
+    # the removal helper itself: its decision must not follow the link it is there to remove.  exists()/metadata()/
+    # is_dir()/is_file() follow links, so a dangling link (target not created yet) looks absent and stays in place.
+    FOLLOW_QUERIES = r"^std::path::Path::(exists|try_exists|metadata|is_file|is_dir|canonicalize)$|^std::fs::(metadata|canonicalize|exists)$"
+    NOFOLLOW_QUERIES = r"^std::path::Path::(symlink_metadata|is_symlink)$|^std::fs::symlink_metadata$"
+    helpers = [b for b in cone.values() if b.path.endswith("package::remove_symlink")]
+    if rep.anchor(len(helpers) == 1, "R3", "symlink removal helper package::remove_symlink"):
+        hb = helpers[0]
+        q_follow = [c for c in hb.calls() if re.search(FOLLOW_QUERIES, c.decl)]
+        q_nofollow = [c for c in hb.calls() if re.search(NOFOLLOW_QUERIES, c.decl)]
+        rm = [c for c in hb.calls() if c.decl == "std::fs::remove_file"]
+        rep.check(not q_follow, "R3", "remove-helper|no-following-query", "the removal helper inspects the path without following links",
+                  "the removal helper consults %s, which follows symbolic links: a dangling link looks absent and is left in place for the next create to follow"
+                  % ", ".join(sorted({c.decl for c in q_follow})), q_follow[0].loc() if q_follow else hb.span)
+        rep.check(bool(q_nofollow) and bool(rm) and all(any(hb.dominates(q.bb, r.bb) for q in q_nofollow) for r in rm), "R3", "remove-helper|shape",
+                  "the helper decides with symlink_metadata/is_symlink and removes with remove_file", "the removal helper lacks a non-following query before remove_file", hb.span)
+        # nothing but the non-following query's verdict may gate the removal
+        for sb in sorted(hb.reachable()):
+            info = switch_info(hb, sb)
+            if not info or not any(hb.can_reach(sb, r.bb) and sb != r.bb for r in rm) or any(hb.dominates(r.bb, sb) for r in rm):
+                continue
+            srcs = set()
+            if info["kind"] == "bool":
+                srcs.add(info["call"].decl)
+            elif info["kind"] == "discr":
+                for lf in hb.origins({"l": info["place"]["l"], "p": []}):
+                    srcs.add(lf["call"].decl if lf["kind"] == "call" else lf["kind"])
+            else:
+                srcs.add(info["kind"])
+            bad = {x for x in srcs if not (re.search(NOFOLLOW_QUERIES, x) or x in ("std::fs::Metadata::file_type", "std::fs::FileType::is_symlink"))}
+            rep.check(not bad, "R3", "remove-helper|gate|%s" % ",".join(sorted(bad)) if bad else "remove-helper|gate", "the removal is gated only by the non-following query",
+                      "the removal is also gated by %s" % sorted(bad), hb.span)
+
     # ---- R4 ----------------------------------------------------------------------------------------
     aud = Auditor(f, rep, "C12", "R4", {})
     for b in cone.values():
@@ -165,6 +197,17 @@ def run(f, fixture, rep, cfg, tier):
             ok = all(n in names for n in need)
             rep.check(ok, "R5", "arm|%s" % name, "FileMode::%s entries: %s" % (name, ", ".join(need)),
                       "the FileMode::%s arm performs %s (expected %s)" % (name, [n for n in names if n.startswith("std::fs") or "symlink" in n or "write" in n], need), ex.span)
+            # must-pass-through: the arm cannot complete (reach the next entry) around any of these calls
+            heads = [fc2.bb for fc2 in ex.calls() if fc2.decl == "std::iter::Iterator::next" and fc2.bb not in region and ex.dominates(fc2.bb, tgt)]
+            for n in need:
+                if n == "std::fs::create_dir_all":
+                    continue    # creating may be skipped for a directory that is already there; its mode may not
+                blk = {c.bb for c in calls if c.decl == n}
+                if not blk or not heads:
+                    continue
+                around = reach_from(ex, tgt, blocked_blocks=blk | set(others))
+                rep.check(not any(h in around for h in heads), "R5", "arm|%s|always|%s" % (name, n), "every completed FileMode::%s entry passed %s" % (name, n),
+                          "a FileMode::%s entry can complete without %s (a path through the arm bypasses it)" % (name, n), ex.span)
             for c in calls:
                 if c.decl == "std::fs::set_permissions":
                     t = render(tb.term(c.args[1]))
